@@ -279,6 +279,9 @@ def targets(tier='quick'):
     for qn, label in (('tempo.Tempo._influence', 'Tempo'), ('pt_tempo.PtTempo._influence', 'PtTempo'),
                       ('tempo.MeanFieldTempo._get_influence', 'MeanFieldTempo')):
         T.append(RepresentativeTarget(qn, label))
+    # with and without the reduction the dk=0 tensor is rotated back from the eigenbasis of the coupling operator in the same
+    # way (contracts shared with C05): the reduction must not change what happens to the system legs
+    T += [t for t in c05.rotation_targets(PROP, rp) if 'degeneracy_maps' in t.name]
     for u in (True, False):
         T.append(Target('deg/per-bath-influence[MeanFieldTempo,unique=%s]' % u, 'tempo.MeanFieldTempo._prepare_backend', scen_mf(u), post_mf,
                         mf_registry(), PROP, invoke=invoke_mf, replay=lambda ob: {'func': 'mean_field_two_baths', 'inputs': {'obligation': ob['name']}}))
